@@ -135,6 +135,14 @@ CLAIMED['C13'] = dict(
     technique='bounded stand-in only: QA corpus + hostile-string generators through the real decoders, encoders and Processes.write with an independent well-formedness oracle; exhaustive evaluation of oneline() per code point (contract-based proof of the assemblers not built yet)',
 )
 
+CLAIMED['C01'] = dict(
+    category='exploration',
+    text='BOUNDED at the property level, with deductive obligations on the small encoders only. Bounded (text-to-wire): a generator writes route text AND the values it means (IPv4/IPv6 unicast, multicast, labelled, VPN; next hop IPv4 / IPv6 / self; path-information; origin, one- and two-segment as-path with 2- and 4-byte AS numbers, med, local-preference, atomic-aggregate, aggregator, communities, large and extended communities, originator-id, cluster-list; values at field boundaries); the text goes through the real Configuration and Neighbor.resolve_self, each route is encoded alone by the real UpdateCollection.messages() for nine session kinds (eBGP/iBGP x 2-/4-byte AS, ADD-PATH both ways / we-send-only / peer-sends-only, extended next hop, 65535-byte messages) and decoded by an RFC reference decoder: prefixes, path identifiers, labels, RD, next hop (NEXT_HOP vs MP_REACH, RD-padded for VPN, local address for self) and every attribute must be exactly what was written plus the RFC defaults for that session (ORIGIN IGP; AS_PATH empty / local AS; LOCAL_PREF 100 on iBGP, absent on eBGP; AS_TRANS + AS4_PATH / AS4_AGGREGATOR towards 2-byte peers). Bounded (grouped-routes): 700-3000 routes with one attribute set in one collection per session kind: every UPDATE within the negotiated size and decodable under the session rules, the union exactly the written prefixes. Deductive (discharged by z3, all inputs): Attribute._attribute (RFC 4271 TLV header, extended length iff > 255), INETBase / LabelBase / IPVPNBase.pack_nlri (path identifier present iff ADD-PATH send negotiated: kept, stripped, or 0 prepended), ASN.pack_asn (width by asn4, refusal above 65535 in 2 bytes), plus Negotiated._negotiate, MPNLRICollection._attribute_header, UpdateCollection.prefix, Message._message and the text value functions shared with C07 / C09 / C18.',
+    note='Exploration level: AttributeCollection.pack_attribute (the defaults), ASPath.pack_attribute (AS_TRANS / AS4_PATH), MPNLRICollection next-hop encoding, Neighbor.resolve_self, CIDR / Labels / RouteDistinguisher packing and the route text parser have NO deductive obligation; they are covered by the bounded sweep only. Confederation segments, AIGP, PMSI, prefix-SID, tunnel encapsulation and non-unicast-like families (flow, VPLS, EVPN, ...) are not generated here (see C15/C16/C18). One genuine defect repaired (5c926ef: IPv4 multicast routes were sent in the IPv4 unicast NLRI field).',
+    ref='DESIGN.md §6 C01, §11.14',
+    technique='bounded stand-in at the property level: generated (text, meaning) pairs through the real parser, resolve_self and encoder for nine negotiated session kinds against an RFC reference decoder; ' + PYVC + ' on the TLV header, ADD-PATH adjustment and AS-number width',
+)
+
 NOT_YET = 'check not built yet in this session (planned in DESIGN.md §6); not claimed until its obligations are discharged'
 NA = {}
 
